@@ -472,7 +472,7 @@ func checkHashAlwaysReset(c *Ctx, r *Report) {
 		r.Fn(name)
 		ok := true
 		var pos = fn.Pos()
-		complete := enumPaths(fn, 2, 20000, func(p CPath) {
+		complete := enumPaths(fn, 2, 1000000, func(p CPath) {
 			if _, isRet := p.Last().(*ssa.Return); !isRet {
 				return
 			}
